@@ -105,6 +105,7 @@ def ready_arms(ck, ctx):
 
 
 def run(ck, ctx):
+    C.adapter_census(ck, ctx, "hash-covers", ("work::", "hash::", "db::"))
     D.decision(ck, ctx)
     D.hash_covers(ck, ctx)
     D.hash_types(ck, ctx)
